@@ -1,7 +1,7 @@
 """C11 — gaussian profile delivers the configured volume per window and peaks on time."""
 from ..core import fbits, hx
 ID = "C11"
-PROPS = ["F1Verif.Props.C11", "F1Verif.Props.FactsC11", "F1Verif.Props.RefineC11", "F1Verif.Props.RefineC11Q", "F1Verif.Props.RefineC15"]
+PROPS = ["F1Verif.Props.C11", "F1Verif.Props.FactsC11", "F1Verif.Props.RefineC11", "F1Verif.Props.RefineC11Q", "F1Verif.Props.RefineC15", "F1Verif.Props.RefineC14G"]
 RULE = ("engine A on gaussian.NewCalculator(...).For over window-aligned synthetic timestamps: volumes 10^2..10^6, repeat "
         "windows 1 min..1 h, tick frequencies dividing them, peaks on and off the tick grid (including second half of a "
         "tick), standard deviations >= frequency, weight lists of 0-7 entries over several windows of the weight cycle; "
